@@ -108,6 +108,17 @@ func orderCases() []orderCase {
 	add("obj-embed", "{a: §0, **§1, **§2}", "1", "{b: 2}", "{c: 3}")
 	add("map-values", "%{1: §0, 2: §1, 3: §2}", "1", "2", "3")
 	add("map-embed", "%{1: §0, **§1, **§2}", "1", "%{2: 2}", "%{3: 3}")
+	// duplicated names/keys: every written value is evaluated once, in order (resolution only picks the kept one)
+	add("obj-duplicate-name", "{a: §0, b: §1, a: §2, a: §3}", "1", "2", "3", "4")
+	add("obj-duplicate-name-spellings", `{'a: §0, a: §1, "a": §2, a: §3}`, "1", "2", "3", "4")
+	add("map-duplicate-key", "%{1: §0, 2: §1, 1: §2, [1]: §3, [1]: §4}", "1", "2", "3", "4", "5")
+	add("call-duplicate-kwarg", "ff(1, k: §0, j: §1, k: §2)", "1", "2", "3")
+	add("propcall-duplicate-kwarg", "oo.m(1, 2, k: §0, k: §1)", "1", "2")
+	add("kwarg-default-duplicate", "{|a, k: §0, k: §1| a}", "1", "2")
+	// a function literal used as the callee of a literal call is evaluated where it is written: after the receiver and the chain argument
+	add("literalcall-kwarg-default", "§0.{|x, k: §1| x}", "1", "2")
+	add("literalcall-chainarg-kwarg-default", "§0@(§1){|x, k: §2| x}", "[1]", "[]", "2")
+	add("trailing-func-kwarg-default", "ff(§0, §1) {|y, k: §2| y}", "1", "2", "3")
 	add("embedded-str", `"a#{§0}b#{§1}c#{§2}d"`, "1", "2", "3")
 	add("embedded-str-2", `"#{§0}#{§1}"`, "1", "2")
 	add("index", "§0[§1]", "[1, 2]", "0")
@@ -275,6 +286,9 @@ var programs = []prog{
 	{Name: "obj-literal-duplicates", Src: "{a: t(1, 1), b: t(2, 2), a: t(3, 3)}"},
 	{Name: "map-literal-duplicates", Src: "%{1: t(1, 1), 2: t(2, 2), 1: t(3, 3)}.A"},
 	{Name: "func-inspect", Src: "{|a, k: 1, j: 2, i: 3| a}.S"},
+	{Name: "func-inspect-duplicate-kwarg", Src: "{|a, k: 1, k: 2, j: 3, k: 0| a}.S"},
+	{Name: "parse-duplicate-kwargs-string", Src: "ff(1, k: 1, k: 2, j: 3, k: 0)", Parse: true},
+	{Name: "parse-duplicate-kwarg-defaults-string", Src: "{|k: 2, k: 1| k}", Parse: true},
 	{Name: "func-kwargs-prop", Src: "{|a, k: 1, j: 2, i: 3| a}.kwargs"},
 	{Name: "method-missing-kwargs", Src: "o := {_missing: m{|name| [name, \\_]}}\no.foo(b: 1, a: 2)"},
 	{Name: "either-kwargs", Src: "oo.try.m(1, 2, j: 3, k: 4).val"},
